@@ -51,6 +51,17 @@ class PolyF:
         return P()
 
 
+REUSE = {}      # grid objects kept across trees: every other tree is evaluated on an object that has already served other trees
+
+
+def reused(key, make, turn):
+    if turn % 2 == 0:
+        return make()
+    if key not in REUSE:
+        REUSE[key] = make()
+    return REUSE[key]
+
+
 def test_tree(rep, st, tier, rng, warp=False):
     import sparseSpACE.Grid as G
     LX = 16 * (16 + 16) if warp else LAT
@@ -70,7 +81,7 @@ def test_tree(rep, st, tier, rng, warp=False):
         # ---- trapezoidal family against the spec rationals
         for bnd, mod in ((True, False), (False, False), (False, True)):
             try:
-                grid = G.GlobalTrapezoidalGrid(a=np.array([a]), b=np.array([b]), boundary=bnd, modified_basis=mod)
+                grid = reused(('trap', a, b, bnd, mod, warp), lambda: G.GlobalTrapezoidalGrid(a=np.array([a]), b=np.array([b]), boundary=bnd, modified_basis=mod), st.get('_turn', 0))
                 with impl.quiet():
                     grid.set_grid([np.array(xs)], [np.array(lev)])
                 w = [float(v) for v in grid.weights[0]]
@@ -106,7 +117,7 @@ def test_tree(rep, st, tier, rng, warp=False):
         for name, mk, order, how in rules:
             K = min(order, 1) if n < order + 1 else order
             try:
-                grid = mk()
+                grid = reused((name, a, b, warp), mk, st.get('_turn', 0))
                 with impl.quiet(), impl.watchdog(60):
                     grid.set_grid([list(xs)], [list(lev)])
                     if how == 'weights':
@@ -139,10 +150,15 @@ def run(tier, seed):
     rep = Report(PROP, tier, seed, 'model_checking')
     rng = random.Random(seed)
     g = mc(rep, tier, 'c09')
+    turn = 0
     for sid in sorted(g.states):
+        turn += 1
+        g.states[sid]['_turn'] = turn
         test_tree(rep, g.states[sid], tier, rng)
     gw = mc(rep, tier, 'c09', warp=True)      # strongly graded grids with non-dyadic split ratios
     for sid in sorted(gw.states):
+        turn += 1
+        gw.states[sid]['_turn'] = turn
         test_tree(rep, gw.states[sid], tier, rng, warp=True)
     rep.cov['spec_states_tested_on_impl'] = len(g.states) + len(gw.states)
     rep.cov['exhaustive'] = True
